@@ -5,7 +5,7 @@
 (* describing functions, is compared with the reference semantics Eval of  *)
 (* Dataflow.tla.  Input (IOEnv.CASE_FILE):                                 *)
 (*   {"progs": [P, ...], "obs": [{p, given, raised, errclass, val, exec,   *)
-(*                                dup, async, built, twice}, ...]}         *)
+(*                                dup, async, built, twice, conc, loop}]}  *)
 (* One state per observation.                                              *)
 (***************************************************************************)
 EXTENDS Dataflow, TLC, Json, IOUtils
@@ -39,7 +39,10 @@ Bad(W) ==
   IN Clauses({
        <<~W.built /\ ~W.twice, "C01.build-error">>,
        <<~W.built /\ HasSub(P), "C20.build-error">>,
-       <<W.built /\ exp.argerr /\ ~(W.raised /\ W.errclass \in {"TawaziArgumentException", "TypeError"}), "C01.argerror">>,
+       \* a missing / surplus argument must make the call raise (TawaziArgumentException / TypeError are the
+       \* documented classes; another node of the same program may legitimately fail first, so only the
+       \* raise itself is demanded)
+       <<W.built /\ exp.argerr /\ ~W.raised, "C01.argerror">>,
        <<W.built /\ inEq /\ wrongVal, "C01.value">>,
        <<W.built /\ inEq /\ wrongVal /\ HasSub(P), "C20.value">>,
        <<W.built /\ inEq /\ wrongVal /\ HasFlag(P), "C10.value">>,
@@ -48,7 +51,13 @@ Bad(W) ==
        <<W.built /\ inEq /\ wrongExec /\ ~HasFlag(P), "C03.exec">>,
        <<W.built /\ inEq /\ wrongExec /\ HasSub(P), "C20.exec">>,
        <<W.built /\ inEq /\ wrongExec /\ W.async, "C17.exec">>,
-       <<W.built /\ W.dup, "C03.twice">>})
+       <<W.built /\ W.dup, "C03.twice">>,
+       \* conc = 1: one of several simultaneous calls of one DAG from different threads (C16)
+       \* conc = 2: one of several awaits of one AsyncDAG gathered in one event loop (C17)
+       <<W.built /\ inEq /\ (wrongVal \/ wrongExec) /\ W.conc = 1, "C16.concurrent-calls">>,
+       <<W.built /\ inEq /\ (wrongVal \/ wrongExec) /\ W.conc = 2, "C17.gathered-awaits">>,
+       \* loop = 2: a sibling coroutine was not served while async-thread nodes were running
+       <<W.loop = 2, "C17.loop-blocked">>})
 
 Check ==
   LET W == Obs[o]
@@ -62,9 +71,13 @@ Check ==
                  \E j \in 1..Len(P.sites) : P.sites[j].active.c # "none")
      /\ Count(5, ~exp.err /\ W.async)
      /\ Count(6, exp.argerr)
+     /\ Count(7, ~exp.err /\ W.conc = 1)
+     /\ Count(8, ~exp.err /\ W.conc = 2)
+     /\ Count(9, W.loop = 1)
      /\ (b = {} \/ PrintT("MISMATCH " \o ToJson([o |-> o, c |-> b, expval |-> exp.val, expexec |-> exp.exec])))
 
-ASSUME \A reg \in 1..6 : TLCSet(reg, 0)
+ASSUME \A reg \in 1..9 : TLCSet(reg, 0)
 Counts == PrintT("COUNTS " \o ToJson([rows |-> TLCGet(1), ineq |-> TLCGet(2), nested |-> TLCGet(3),
-                                       flagged |-> TLCGet(4), async |-> TLCGet(5), argerr |-> TLCGet(6)]))
+                                       flagged |-> TLCGet(4), async |-> TLCGet(5), argerr |-> TLCGet(6),
+                                       threads |-> TLCGet(7), gathered |-> TLCGet(8), loopserved |-> TLCGet(9)]))
 =============================================================================
